@@ -55,7 +55,7 @@ TraceStep ==
   /\ last'.replies = Trace[l].replies
   /\ LoopCbs(last'.cbs) = LoopCbs(Trace[l].cbs)
   /\ DataCbs(last'.cbs) = DataCbs(Trace[l].cbs)
-  /\ (~st'.closed) => Proj(st') = Trace[l].st
+  /\ (~st'.closed /\ ~Trace[l].nost) => Proj(st') = Trace[l].st
 
 TraceNext == TraceReset \/ TraceStep
 
